@@ -232,3 +232,14 @@ def replay(pid, path):
     for p, t in o.violations:
         log("replay: " + t)
     return 1 if o.violations else 0
+
+
+def consensus_stage(o, seed, thorough):
+    """Used by C01 (the pipeline's first mechanism is consensus agreement): the scripted QBFT scenarios and a small
+    random batch on the real qbft.Run, validated against QBFT.tla, so that consensus-breaking changes surface in
+    the composition check as well (intended redundancy with C02/C03)."""
+    sc = scenario_schedules(seed, "c01", 3 if thorough else 1)
+    vlib.conformance(o, FAMILY, "QBFTTrace", trace_cfg_of, "c02", sc, tag="qbft_scenario", replay_of=trace_to_schedule)
+    combos = [(4, 0, [3]), (4, 2, []), (5, 1, [2]), (7, 3, [1, 5])]
+    rnd = random_schedules(seed, "c01", combos, 20 if thorough else 4, 300, pbyz=16, ptimeout=10, plag=50, pdup=8)
+    vlib.conformance(o, FAMILY, "QBFTTrace", trace_cfg_of, "c02", rnd, tag="qbft_random", replay_of=trace_to_schedule)
